@@ -1,12 +1,13 @@
 #!/bin/bash
-# usage: tools/eval_new.sh <seed_out_dir> <results.jsonl> [parallel]
+# usage: tools/eval_new.sh <seed_out_dir> <results.jsonl> [parallel] [id-regex]
 # evaluates (scratch mode) every completely delivered seed directory that has no line in <results.jsonl> yet
-src=$1; out=$2; par=${3:-4}
+src=$1; out=$2; par=${3:-4}; pat=${4:-.}
 cd "$(dirname "$0")/.."
 touch "$out"
 for d in "$src"/*/; do
   s=$(basename "$d")
   [ -f "$d/patch.diff" ] && [ -f "$d/meta.json" ] && [ -f "$d/demo.py" ] || continue
+  echo "$s" | grep -Eq "$pat" || continue
   grep -q "\"id\": \"$s\"" "$out" && continue
   echo "$src/$s"
 done | xargs -r -P "$par" -L 1 sh -c 'python3 tools/seedrun.py "$@" 2>&1 | grep "^{" ' _ >> "$out"
